@@ -30,16 +30,66 @@ def a3_trigger(unopt_text, reserved=()):
     return any(loads.get(s, 0) == 1 and stores.get(s, 0) >= 2 for s in adjacent if s not in reserved)
 
 
+def _walk(nd):
+    yield nd
+    for ch in nd["a"]:
+        yield from _walk(ch)
+
+
+def _protected_vars(recipe):
+    """variables whose slot the optimiser must leave alone because its index is taken (by-reference argument, index(),
+    DynamicScratchVar target)"""
+    out = set()
+    rt = recipe.get("rt", [])
+    reach, todo = set(), [recipe["main"]]         # only routines reachable from main are compiled
+    roots = []
+    while todo:
+        root = todo.pop()
+        roots.append(root)
+        for nd in _walk(root):
+            if nd["k"] == "Call" and nd["i"][0] not in reach and 1 <= nd["i"][0] <= len(rt):
+                reach.add(nd["i"][0])
+                todo.append(rt[nd["i"][0] - 1]["body"])
+    for root in roots:
+        for nd in _walk(root):
+            if nd["k"] in ("Ref", "Idx"):
+                out.add(nd["i"][0])
+            elif nd["k"] == "DynSet":
+                out.add(nd["i"][1])
+    return out
+
+
 def classify_a3(entry, metas, k):
     """metas: list of text metadata of one entry; k: 1-based index of the failing text."""
     me = metas[k - 1]
     if not opt_on(me["st"]):
         return None
-    no_routines = not entry["recipe"].get("rt")
+    recipe = entry["recipe"]
+    no_routines = not recipe.get("rt")
+    reserved = set(entry.get("req", ()))
+    prot = _protected_vars(recipe)
     for other in metas:
         if opt_on(other["st"]):
             continue
-        if (no_routines or fp_on(other["st"]) == fp_on(me["st"])) and a3_trigger(other["text"], entry.get("req", ())):
+        if not (no_routines or fp_on(other["st"]) == fp_on(me["st"])):
+            continue
+        text = other["text"]
+        if prot:
+            # slots of protected variables are not instances of A3: find them by recompiling the unoptimised program with
+            # those variables pinned to known slot ids
+            import pipeline
+            vs = [dict(v) for v in recipe.get("vars", [])]
+            pinned = set()
+            for j, v in enumerate(vs, 1):
+                if j in prot and v.get("slot", -1) < 0:
+                    v["slot"] = 230 + len(pinned)
+                    pinned.add(v["slot"])
+            r = pipeline.compile_all([({"main": recipe["main"], "rt": recipe.get("rt", []), "vars": vs, "mode": entry["cx"]["mode"]}, [other["st"]])])[0][0]
+            if "teal" not in r:
+                continue
+            text = r["teal"]
+            reserved = reserved | pinned | set(v["slot"] for j, v in enumerate(vs, 1) if j in prot)
+        if a3_trigger(text, reserved):
             return "A3/optimizer-deletes-every-store-of-cancelled-slot"
     return None
 
@@ -59,12 +109,6 @@ def classify_c13(spelling, what, clause):
 
 
 ZERO_OP_KINDS = {"Break", "Continue", "Nop"}
-
-
-def _walk(nd):
-    yield nd
-    for ch in nd["a"]:
-        yield from _walk(ch)
 
 
 def _comment_on_zero_op(recipe):
